@@ -37,6 +37,7 @@ type c17Replay struct {
 	Edit    string `json:"edit,omitempty"`
 	Mode    string `json:"mode,omitempty"`
 	Byte    string `json:"byte_at_pos,omitempty"`
+	History string `json:"calls_on_the_error_value,omitempty"`
 }
 
 func c17IsSpace(b byte) bool { return b == ' ' || (b >= 9 && b <= 13) }
@@ -215,6 +216,8 @@ func c17PosErr(err error) (tp string, b kvql.QueryBinder, pos int, msg string, o
 	return "", nil, 0, "", false
 }
 
+var c17History int
+
 // c17Emit binds the query, renders, records the case and the direct verdicts.
 func c17Emit(e *emitter, origin string, err error, q string, pad int, base, edit, mode string) {
 	tp, binder, pos, msg, ok := c17PosErr(err)
@@ -231,6 +234,26 @@ func c17Emit(e *emitter, origin string, err error, q string, pad int, base, edit
 				rp.Panic = fmt.Sprint(r)
 			}
 		}()
+		// the rendering is a function of the query and padding bound NOW: a quarter of the cases
+		// each reach that state through another history of calls on the same error value
+		c17History++
+		switch c17History % 4 {
+		case 1:
+			rp.History = "BindQuery(q) SetPadding(pad+5) Error() SetPadding(pad) Error()"
+			binder.BindQuery(q)
+			binder.SetPadding(pad + 5)
+			_ = err.Error()
+		case 2:
+			rp.History = "Error() BindQuery(other) Error() BindQuery(q) SetPadding(pad) Error()"
+			_ = err.Error()
+			binder.BindQuery("select * where other = 'x'")
+			_ = err.Error()
+		case 3:
+			rp.History = "BindQuery(q) SetPadding(pad) Error() Error()"
+			binder.BindQuery(q)
+			binder.SetPadding(pad)
+			_ = err.Error()
+		}
 		binder.BindQuery(q)
 		binder.SetPadding(pad)
 		obs = err.Error()
@@ -359,6 +382,15 @@ func c17Text(n, variant int) string {
 			}
 		}
 	}
+	if variant == 0 {
+		// characters that mean something to formatting functions, all over the text
+		for i := 3; i < n-1; i += 11 {
+			b[i] = "%\\{$"[(i/11)%4]
+			if b[i] == '%' && i+1 < n-1 {
+				b[i+1] = "sd%v2"[(i/11)%5]
+			}
+		}
+	}
 	if variant == 2 && n >= 6 {
 		copy(b, "... ") // text that itself looks like the elision marker
 		copy(b[n-2:], "..")
@@ -452,7 +484,7 @@ func runC17Grid(c *runCtx, e *emitter) {
 
 type c17Gen struct{ r *rng }
 
-var c17Lits = []string{"'a'", "'k3'", "'zz'", "'k'", "\"b c\"", "'x,y'", "''"}
+var c17Lits = []string{"'a'", "'k3'", "'zz'", "'k'", "\"b c\"", "'x,y'", "''", "'50%'", "'img%20'", "'%s%d'", "'a\\b'", "'{0}$1'"}
 var c17Nums = []string{"1", "2", "10", "0", "7"}
 
 func (g *c17Gen) cat(parts ...[]string) []string {
@@ -781,7 +813,7 @@ func c17Render(lex []string, mode int) string {
 var c17TokPool = []string{"select", "where", "key", "value", "(", ")", "[", "]", ",", "=", "!=", "^=", "&", "|", "and", "or",
 	"in", "between", "limit", "order", "by", "group", "as", "'s'", "3", "1.5", "*", "+", "!", "nm", "true", ";", "put", "delete", "asc"}
 
-const c17BytePool = "'\"()[],=!<>&|*+ xk1`;~^"
+const c17BytePool = "'\"()[],=!<>&|*+ xk1`;~^%\\"
 
 func c17PickLoc(r *rng, n, loc int) int {
 	if n <= 0 {
